@@ -55,7 +55,10 @@ JudgeAPD(b, p, o, dev) ==
   LET dl == DataListX(b, p, <<>>, dev) IN
   IF dl.ok THEN LET n == dl.next - p - Unc(dev, SumUncounted(b, dl.items, 1)) IN
        <<o[1], TN(o[2]), o[3], o[4], o[5], o[6]>> = <<n, "ALL", p - 1, n, dl.next - 1, Len(dl.items)>>
-  ELSE o[1] = 0 /\ TN(o[2]) = "UNKNOWN" /\ o[4] = 0 /\ o[6] = -1 /\ o[5] >= p - 1 /\ o[5] <= Len(b)
+  ELSE /\ o[1] = 0 /\ TN(o[2]) = "UNKNOWN" /\ o[4] = 0 /\ o[5] >= p - 1 /\ o[5] <= Len(b)
+       \* the count of a list that is not valid: negative once an element was consumed and a later one fails
+       \* (that is what makes the parser refuse the unit); 0 or -1 when no element was consumed at all
+       /\ IF dl.items = <<>> THEN o[6] \in {0, -1} ELSE o[6] < 0
 
 (* o = <<ret, htype, hoff, hlen, dtype, doff, dlen, nparams, termination>> *)
 JudgeUnit(b, p, o, dev) ==
@@ -67,7 +70,10 @@ JudgeUnit(b, p, o, dev) ==
        /\ IF u.hasData
           THEN <<TN(o[5]), o[6], o[7], o[8]>> = <<"ALL", u.dataStart - 1, u.dataEnd - u.dataStart - Unc(dev, SumUncounted(b, u.items, 1)), Len(u.items)>>
           ELSE TN(o[5]) = "UNKNOWN" /\ o[7] = 0 /\ o[8] \in {0, -1}
-     ELSE /\ ~(TN(o[2]) \in CompleteHeaderTypes /\ o[8] >= 0)
+     ELSE \* not well formed: never "complete header with a valid parameter count", except that a list whose
+          \* FIRST element is cut by the end of input (no element consumed) may count 0 or -1
+          /\ \/ ~(TN(o[2]) \in CompleteHeaderTypes /\ o[8] >= 0)
+             \/ (u.header.type \in CompleteHeaderTypes /\ u.valid /\ u.items = <<>> /\ u.incomplete /\ o[8] = 0)
           /\ (TN(o[2]) \in CompleteHeaderTypes \cup IncompleteHeaderTypes => o[3] >= p - 1 /\ o[4] >= 0 /\ o[3] + o[4] <= p - 1 + o[1])
 
 Judge(id, b, p, o, dev) ==
